@@ -129,7 +129,7 @@ def tlc(spec, cfg, workers=8, dump=None, simulate=None, depth=None, timeout=900,
            "tlc2.TLC"]
     # use the wrapper if available (sets classpath incl. CommunityModules)
     cmd = ["tlc"]
-    cmd += ["-workers", str(workers), "-metadir", md, "-config", cfg]
+    cmd += ["-workers", str(workers), "-metadir", md, "-noGenerateSpecTE", "-config", cfg]
     if dump:
         cmd += ["-dump", "dot,actionlabels", dump]
     if simulate:
